@@ -21,6 +21,9 @@ type cliClient struct {
 	loopEnd  token.Pos
 	compiles int
 	fprintfs int
+	wrappers map[types.Object]bool // buffered writers wrapped around the output parameter
+	pending  types.Object          // the builder holding not yet terminated input
+	stmts    types.Object          // result of SplitStatements
 }
 
 func isScannerErr(callee *types.Func) bool {
@@ -145,12 +148,21 @@ func (c *cliClient) PreCall(e *Engine, st *State, call *ast.CallExpr, callee *ty
 		}
 		return nil
 	}
+	// a buffered wrapper around the output must be flushed before every return
+	if sel, ok := ast.Unparen(call.Fun).(*ast.SelectorExpr); ok && sel.Sel.Name == "Flush" {
+		if o := objOf(info, sel.X); o != nil && c.wrappers[o] {
+			return st.WithExt("dirty:"+e.objKey(o), "")
+		}
+	}
 	// C16/output: SQL is printed under err == nil, followed by a blank line.
-	if callee != nil && callee.FullName() == "fmt.Fprintf" && len(call.Args) >= 2 && objOf(info, call.Args[0]) == c.output && c.output != nil {
+	if callee != nil && callee.FullName() == "fmt.Fprintf" && len(call.Args) >= 2 && (objOf(info, call.Args[0]) == c.output || c.wrappers[objOf(info, call.Args[0])]) && c.output != nil {
+		if o := objOf(info, call.Args[0]); c.wrappers[o] {
+			st = st.WithExt("dirty:"+e.objKey(o), "1")
+		}
 		c.fprintfs++
 		key := fmt.Sprintf("%s output write #%d", c.fn, c.ordinal(e, call, func(cc *ast.CallExpr) bool {
 			f := Callee(info, cc)
-			return f != nil && f.FullName() == "fmt.Fprintf" && len(cc.Args) >= 2 && objOf(info, cc.Args[0]) == c.output
+			return f != nil && f.FullName() == "fmt.Fprintf" && len(cc.Args) >= 2 && (objOf(info, cc.Args[0]) == c.output || c.wrappers[objOf(info, cc.Args[0])])
 		}))
 		format, isConst := constString(info, call.Args[1])
 		okFmt := isConst && format == "%s\n\n" && len(call.Args) == 3
@@ -178,6 +190,7 @@ func (c *cliClient) PreCall(e *Engine, st *State, call *ast.CallExpr, callee *ty
 			}
 			e.Site("C16/output", key, call, false, "standard output would not be exactly the library's SQL plus a blank line: "+strings.Join(why, "; "))
 		}
+		return st
 	}
 	return nil
 }
@@ -203,6 +216,13 @@ func (c *cliClient) Return(e *Engine, st *State, ret *ast.ReturnStmt) {
 	res := ret.Results[0]
 	key := fmt.Sprintf("%s return #%d", c.fn, returnOrdinal(e.Func, ret))
 	nn := knownNonNilError(e, st, res)
+	for w := range c.wrappers {
+		dirty := st.Ext("dirty:"+e.objKey(w)) == "1"
+		e.Site("C16/output", key+" output flushed", ret, !dirty, "nothing is left in a buffered writer when run returns")
+		if dirty {
+			e.Site("C16/output", key+" output flushed", ret, false, "SQL was written to a buffered wrapper of the output that is not flushed on this path to the return: the SQL of accepted statements is dropped")
+		}
+	}
 	// C16/sticky
 	if st.Ext("logged") == "1" {
 		e.Site("C16/sticky", key, ret, nn, "a path that reported a failed statement returns a non-nil error")
@@ -247,7 +267,7 @@ func ruleC16(p *Program, r *Run) {
 	fd := p.MustFunc(pkg, "run")
 	fn := FuncName(pkg, fd)
 	r.Saw(fn)
-	c := &cliClient{p: p, fn: fn, compile: FuncObj(p.PQL, p.MustFunc(p.PQL, "Compile"))}
+	c := &cliClient{p: p, fn: fn, compile: FuncObj(p.PQL, p.MustFunc(p.PQL, "Compile")), wrappers: map[types.Object]bool{}}
 	for _, f := range fd.Type.Params.List {
 		for _, n := range f.Names {
 			switch TypeStr(info.TypeOf(f.Type)) {
@@ -261,6 +281,20 @@ func ruleC16(p *Program, r *Run) {
 	if c.logErr == nil || c.output == nil {
 		fatalf("anchor not found: run's io.Writer / func(error) parameters")
 	}
+	// buffered writers around the output: w := bufio.NewWriter(output)
+	ast.Inspect(fd.Body, func(n ast.Node) bool {
+		as, ok := n.(*ast.AssignStmt)
+		if !ok || len(as.Lhs) != 1 || len(as.Rhs) != 1 {
+			return true
+		}
+		if call, ok := as.Rhs[0].(*ast.CallExpr); ok && len(call.Args) >= 1 && objOf(info, call.Args[0]) == c.output {
+			if f := Callee(info, call); f != nil && strings.HasPrefix(f.FullName(), "bufio.NewWriter") {
+				c.wrappers[objOf(info, as.Lhs[0])] = true
+			}
+		}
+		return true
+	})
+	ruleC16Carry(p, r, fd)
 	// the prelude builder: the builder whose String() is the leftmost operand of some Compile call
 	// and which is written to inside run.
 	written := map[types.Object]bool{}
@@ -458,4 +492,168 @@ func ruleC16Exit(p *Program, r *Run) {
 	}
 	e.FlushSites(r)
 	r.Floor("C16/exit", 3)
+}
+
+// ruleC16Carry: the text that is split and compiled is exactly the text that was read.
+//   - the pending buffer only ever receives a line's bytes, the line terminator, and - right after Reset - the
+//     unmodified last piece of the split;
+//   - SplitStatements is applied to the pending buffer's contents;
+//   - the statements compiled inside the loop are the range values over all pieces but the last, unmodified;
+//   - the statement compiled at end of input is the pending buffer's contents, unmodified.
+func ruleC16Carry(p *Program, r *Run, fd *ast.FuncDecl) {
+	pkg := p.Main
+	info := pkg.TypesInfo
+	fn := FuncName(pkg, fd)
+	split := FuncObj(p.Parser, p.MustFunc(p.Parser, "SplitStatements"))
+	compile := FuncObj(p.PQL, p.MustFunc(p.PQL, "Compile"))
+	// locate: statements := parser.SplitStatements(<pending>.String())
+	var stmts, pending types.Object
+	ast.Inspect(fd.Body, func(n ast.Node) bool {
+		as, ok := n.(*ast.AssignStmt)
+		if !ok || len(as.Rhs) != 1 || len(as.Lhs) != 1 {
+			return true
+		}
+		call, ok := as.Rhs[0].(*ast.CallExpr)
+		if !ok || Callee(info, call) != split || len(call.Args) != 1 {
+			return true
+		}
+		stmts = objOf(info, as.Lhs[0])
+		if c2, ok := ast.Unparen(call.Args[0]).(*ast.CallExpr); ok {
+			if sel, ok := ast.Unparen(c2.Fun).(*ast.SelectorExpr); ok && sel.Sel.Name == "String" && isBuilder(info, sel.X) {
+				pending = objOf(info, sel.X)
+			}
+		}
+		return true
+	})
+	r.Check(stmts != nil && pending != nil, "C16/carry", fn+" splits the pending buffer", p.Pos(fd.Pos()), "SplitStatements(pending.String())", "the input is not split by applying parser.SplitStatements to the contents of the pending-text buffer")
+	if stmts == nil || pending == nil {
+		return
+	}
+	isLastPiece := func(e ast.Expr) bool {
+		ix, ok := ast.Unparen(e).(*ast.IndexExpr)
+		return ok && objOf(info, ix.X) == stmts && isLenMinus1(info, ix.Index, stmts)
+	}
+	// every write into the pending buffer
+	n := 0
+	ast.Inspect(fd.Body, func(x ast.Node) bool {
+		call, ok := x.(*ast.CallExpr)
+		if !ok {
+			return true
+		}
+		sel, ok := ast.Unparen(call.Fun).(*ast.SelectorExpr)
+		if !ok || objOf(info, sel.X) != pending || !strings.HasPrefix(sel.Sel.Name, "Write") || len(call.Args) != 1 {
+			return true
+		}
+		n++
+		key := fmt.Sprintf("%s write #%d into the pending buffer: %s", fn, n, exprStr(call.Args[0]))
+		arg := ast.Unparen(call.Args[0])
+		ok2, how := false, ""
+		switch {
+		case isLastPiece(arg):
+			// must directly follow Reset()
+			if blk, isBlk := p.Parent(p.Parent(call)).(*ast.BlockStmt); isBlk {
+				for i, s := range blk.List {
+					if es, isES := s.(*ast.ExprStmt); isES && es.X == ast.Expr(call) && i > 0 {
+						if prev, isES2 := blk.List[i-1].(*ast.ExprStmt); isES2 {
+							if pc, isCall := prev.X.(*ast.CallExpr); isCall {
+								if ps, isSel := pc.Fun.(*ast.SelectorExpr); isSel && ps.Sel.Name == "Reset" && objOf(info, ps.X) == pending {
+									ok2, how = true, "the unterminated last piece is carried over unchanged after Reset"
+								}
+							}
+						}
+					}
+				}
+			}
+			if !ok2 {
+				how = "the last piece is appended without resetting the buffer first"
+			}
+		default:
+			if c2, isCall := arg.(*ast.CallExpr); isCall {
+				if f := Callee(info, c2); f != nil && f.FullName() == "(*bufio.Scanner).Bytes" {
+					ok2, how = true, "the bytes of the line just read"
+				}
+			}
+			if v, isC := constInt(info, arg); isC && v == '\n' {
+				ok2, how = true, "the line terminator"
+			}
+			if s2, isS := constString(info, arg); isS && s2 == "\n" {
+				ok2, how = true, "the line terminator"
+			}
+			if !ok2 {
+				how = "the pending text is altered (" + exprStr(arg) + "): only a line's bytes, the line terminator and the unmodified last piece may be written"
+			}
+		}
+		r.Check(ok2, "C16/carry", key, p.Pos(call.Pos()), how, how+" - statements spread over lines would be glued or cut differently from what was typed")
+		return true
+	})
+	// compiled statements: range value over statements[:len-1], or the pending contents at end of input
+	var rangeVal types.Object
+	ast.Inspect(fd.Body, func(x ast.Node) bool {
+		rs, ok := x.(*ast.RangeStmt)
+		if !ok || rs.Value == nil {
+			return true
+		}
+		if sl, ok := ast.Unparen(rs.X).(*ast.SliceExpr); ok && objOf(info, sl.X) == stmts && sl.Low == nil && isLenMinus1(info, sl.High, stmts) {
+			rangeVal = objOf(info, rs.Value)
+		}
+		return true
+	})
+	r.Check(rangeVal != nil, "C16/carry", fn+" every terminated piece is visited", p.Pos(fd.Pos()), "for _, stmt := range statements[:len(statements)-1]", "the loop over the split result does not visit exactly all pieces but the last")
+	var tailVar types.Object
+	ast.Inspect(fd.Body, func(x ast.Node) bool {
+		as, ok := x.(*ast.AssignStmt)
+		if !ok || len(as.Lhs) != 1 || len(as.Rhs) != 1 {
+			return true
+		}
+		if c2, ok := as.Rhs[0].(*ast.CallExpr); ok {
+			if sel, ok := ast.Unparen(c2.Fun).(*ast.SelectorExpr); ok && sel.Sel.Name == "String" && objOf(info, sel.X) == pending && Callee(info, c2) != nil {
+				if _, isSplitArg := p.Parent(c2).(*ast.CallExpr); !isSplitArg {
+					tailVar = objOf(info, as.Lhs[0])
+				}
+			}
+		}
+		return true
+	})
+	k := 0
+	ast.Inspect(fd.Body, func(x ast.Node) bool {
+		call, ok := x.(*ast.CallExpr)
+		if !ok || Callee(info, call) != compile {
+			return true
+		}
+		k++
+		// operands of the + chain other than the leading prelude and constant suffixes
+		var ops []ast.Expr
+		var flat func(e ast.Expr)
+		flat = func(e ast.Expr) {
+			if b, ok := ast.Unparen(e).(*ast.BinaryExpr); ok && b.Op == token.ADD {
+				flat(b.X)
+				flat(b.Y)
+				return
+			}
+			ops = append(ops, ast.Unparen(e))
+		}
+		flat(call.Args[0])
+		var vars []types.Object
+		okShape := true
+		for i, o := range ops {
+			if _, isConst := constString(info, o); isConst {
+				continue
+			}
+			if c2, isCall := o.(*ast.CallExpr); isCall && i == 0 {
+				if sel, ok := ast.Unparen(c2.Fun).(*ast.SelectorExpr); ok && sel.Sel.Name == "String" && isBuilder(info, sel.X) {
+					continue
+				}
+			}
+			if ob := objOf(info, o); ob != nil {
+				vars = append(vars, ob)
+				continue
+			}
+			okShape = false
+		}
+		okStmt := okShape && len(vars) == 1 && (vars[0] == rangeVal || (tailVar != nil && vars[0] == tailVar))
+		key := fmt.Sprintf("%s statement text of Compile call #%d", fn, k)
+		r.Check(okStmt, "C16/carry", key, p.Pos(call.Pos()), "the piece produced by the split (or the pending text at end of input), unmodified", "the text handed to pql.Compile is not exactly one piece of the split / the pending text: "+exprStr(call.Args[0]))
+		return true
+	})
+	r.Floor("C16/carry", 7)
 }
